@@ -260,7 +260,8 @@ def matches_known(kf, pid, hname, vid, model):
         return True
     m = {k: int(v) for k, v in model.items()}
     try:
-        return bool(eval(pred, {"__builtins__": {}}, {"m": m, "any": any, "all": all, "range": range, "len": len, "min": min, "max": max, "sum": sum}))
+        env = {"__builtins__": {}, "m": m, "any": any, "all": all, "range": range, "len": len, "min": min, "max": max, "sum": sum, "int": int, "sorted": sorted}
+        return bool(eval(pred, env))  # names live in globals so that comprehensions inside pred can see them
     except Exception:
         return False
 
